@@ -21,8 +21,10 @@ PARTIAL = [
     "the production networks are covered by direct checks only",
     "RFC 6979 nonce generation is outside the model (the nonce is an input); C01 covers it",
     "network.parse.address (address text -> hash160) is outside the model (C08/C18); keys are modelled as public pair / hash160 / unparseable",
-    "armoured form: Model/MsgArmour.v models str.replace/split/re.split/strip by hand on code-point lists; the round-trip theorem "
-    "is proved for that model and tied to the code by correspondence on generated armoured and malformed texts",
+    "armoured form: Model/MsgArmour.v models str.replace/split/re.split/strip/lower by hand on code-point lists (the regular "
+    "expression is replaced by an equivalent hand-written matcher); the three round-trip theorems are proved for that model and "
+    "tied to the code by correspondence on ~9000 generated armoured and malformed texts; their domain excludes every message "
+    "containing '\\n-----BEGIN ' (slightly more than the marker lines proper) and messages with a bare carriage return",
 ]
 TRUSTED = ["binascii.a2b_base64/b2a_base64 of CPython 3.12 modelled by hand (Model/Base64.v), tied by ~10^4 correspondence cases",
            "pycoin Generator over toy curves is used as the implementation side of the group (pure-Python Curve.add/multiply)"]
@@ -446,6 +448,123 @@ def chk_recover_sound(sym, first, r, s, z):
     return None
 
 
+def chk_recover_formula(sym, x, parity, s, z, comp):
+    """recovery from a chosen nonce point R = (x, y), y of the given parity: pair_for_message_hash must return
+    r^-1 (s R - z G) with r = x mod n, the recovery id carrying the parity and whether x > n (independent arithmetic)"""
+    nw = net(sym)
+    g = nw.generator
+    n = g.order()
+    R = g.points_for_x(x)[parity]
+    r = x % n
+    first = 27 + parity + (2 if x > n else 0) + (4 if comp else 0)
+    inv_r = pow(r, -1, n)
+    want = (s * inv_r) * R + ((-z * inv_r) % n) * g
+    try:
+        q, c = nw.msg.pair_for_message_hash(mk_text(first, r, s), z)
+    except EncodingError:
+        if want[0] is None:
+            return None
+        return {"kind": "recover-refused", "want": [hex(want[0]), hex(want[1])]}
+    except Exception as e:
+        return {"kind": "recover-raises", "detail": "%s: %s" % (type(e).__name__, e)}
+    if tuple(q) != tuple(want) or c != comp:
+        return {"kind": "recovered-other-point", "got": [hex(q[0]), hex(q[1])], "want": [str(want[0]), str(want[1])]}
+    return None
+
+
+def chk_toy(ci, d, z, comp):
+    """the property on the implementation over a toy generator (public constructors only): all four recovery ids occur"""
+    cv = TOYS[ci]
+    g, ms = toy(cv)
+    n = cv[5]
+    try:
+        sig = ms.signature_for_message_hash(d, z, comp)
+    except TypeError:
+        # Generator.sign_with_recid walked k += 1 onto a multiple of n (k*G = infinity): only possible on curves with a
+        # handful of points; the model predicts the same TypeError (correspondence), and it is C01's subject
+        return None
+    try:
+        q, c = ms.pair_for_message_hash(sig, z)
+        Q = d * g
+        if tuple(q) != tuple(Q) or c != comp:
+            return {"kind": "toy-recovered-other-key", "sig": sig, "first": base64.b64decode(sig)[0]}
+        if ms.verify_message(PairKey(Q), sig, msg_hash=z) is not True:
+            return {"kind": "toy-signer-rejected", "sig": sig}
+        h = ORACLES["hash160"](public_pair_to_sec(tuple(Q), compressed=comp))
+        if ms.verify_message(HashKey(h), sig, msg_hash=z) is not True:
+            return {"kind": "toy-signer-address-rejected", "sig": sig}
+        if ms.verify_message(PairKey(Q), sig, msg_hash=z + 1) is not False:
+            return {"kind": "toy-other-hash-accepted", "sig": sig}
+        if ms.verify_message(PairKey(((d % (n - 1)) + 1) * g), sig, msg_hash=z) is not False:
+            return {"kind": "toy-other-key-accepted", "sig": sig}
+    except Exception as e:
+        return {"kind": "toy-raises", "detail": "%s: %s" % (type(e).__name__, e)}
+    return None
+
+
+WILD = [  # signatures made by other software (from the pycoin test-suite's "found in the wild" samples)
+    ("BTC", "1HZwkjkeaoZfTSaJxDw6aKkxp45agDiEzN",
+     "HCT1esk/TWlF/o9UNzLDANqsPXntkMErf7erIrjH5IBOZP98cNcmWmnW0GpSAi3wbr6CwpUAN4ctNn1T71UBwSc=",
+     "This is an example of a signed message."),
+]
+
+
+def chk_wild(i):
+    sym, addr, sig, msg = WILD[i]
+    nw = net(sym)
+    try:
+        if nw.msg.verify(addr, sig, msg) is not True:
+            return {"kind": "external-signature-rejected"}
+        if nw.msg.verify(addr, sig, msg + ".") is not False:
+            return {"kind": "other-message-accepted"}
+    except Exception as e:
+        return {"kind": "verify-raises", "detail": "%s: %s" % (type(e).__name__, e)}
+    return None
+
+
+def _varint(n):
+    return bytes([n]) if n < 253 else (b"\xfd" + n.to_bytes(2, "little") if n <= 0xffff else b"\xfe" + n.to_bytes(4, "little"))
+
+
+def chk_digest_spec(sym, msg):
+    """hash_for_signing against the definition written out here: dsha256(varstr(name + ' Signed Message:\\n') + varstr(msg));
+    for BTC the prefix is the well-known constant \\x18Bitcoin Signed Message:\\n"""
+    nw = net(sym)
+    magic = (nw.network_name + " Signed Message:\n").encode("utf8")
+    pre = b"\x18Bitcoin Signed Message:\n" if sym == "BTC" else _varint(len(magic)) + magic
+    m = msg.encode("utf8")
+    want = int.from_bytes(ORACLES["dsha256"](pre + _varint(len(m)) + m), "big")
+    try:
+        got = nw.msg.hash_for_signing(msg)
+    except Exception as e:
+        return {"kind": "digest-raises", "detail": "%s: %s" % (type(e).__name__, e)}
+    if got != want:
+        return {"kind": "digest-differs-from-definition", "got": hex(got), "want": hex(want)}
+    return None
+
+
+def chk_first_byte(sym, d, first):
+    """a first byte outside 27..34 is malformed: verification must say False (and inside the range only the signer's own
+    recovery id / compression flag may verify for the key)"""
+    nw = net(sym)
+    k = _key(nw, d, True)
+    good = nw.msg.sign(k, "fb")
+    raw = base64.b64decode(good)
+    t = base64.b64encode(bytes([first]) + raw[1:]).decode()
+    try:
+        r1 = nw.msg.verify(k, t, "fb")
+        r2 = nw.msg.verify(k.address(), t, "fb")
+    except Exception as e:
+        return {"kind": "verify-raises", "detail": "%s: %s" % (type(e).__name__, e)}
+    in_range = 27 <= first < 35
+    same_recid = in_range and ((first - 27) & 3) == ((raw[0] - 27) & 3)
+    want1 = same_recid                          # the key comparison ignores the compression flag
+    want2 = same_recid and first == raw[0]      # the address depends on it
+    if r1 is not want1 or r2 is not want2:
+        return {"kind": "first-byte-handling", "first": first, "signed_first": raw[0], "by_key": r1, "by_address": r2}
+    return None
+
+
 def chk_address_kind(sym, d):
     """an address of another kind (P2SH) carrying the same 20 bytes is another address"""
     nw = net(sym)
@@ -499,6 +618,22 @@ def _malformed_texts(rng, nw, good):
     return outs
 
 
+def _infinity_cases(nw, rng, count):
+    """(text, z) with s*k = z (mod n) for the nonce point R = k*G: the recovered point is the point at infinity"""
+    g = nw.generator
+    n = g.order()
+    out = []
+    for _ in range(count):
+        k = rng.randrange(1, n)
+        R = k * g
+        s = rng.randrange(1, n)
+        z = (s * k) % n
+        if R[0] >= n or z == 0:
+            continue
+        out.append((mk_text(27 + (R[1] & 1) + rng.choice([0, 4]), R[0], s), z))
+    return out
+
+
 def prop_cases(rng, tier):
     quick = tier == "quick"
     msgs = _messages(rng, tier)
@@ -544,6 +679,10 @@ def prop_cases(rng, tier):
         for a in addrs:
             yield PropCase("total", {"net": sym, "key": ["addr", a], "text": good, "msg": "total", "z": None},
                            (lambda sym=sym, a=a, good=good: chk_total(sym, ("addr", a), good, "total", None)))
+        for t, zz in _infinity_cases(nw, rng, 4 if quick else 40):
+            for ks in (("key", 0xC0FFEE), ("addr", k.address())):
+                yield PropCase("total", {"net": sym, "key": list(ks), "text": t, "msg": None, "z": str(zz), "why": "recovers infinity"},
+                               (lambda sym=sym, ks=ks, t=t, zz=zz: chk_total(sym, ks, t, None, zz)))
     # 3. recovery soundness on the real curve, including recovery ids 2/3 (x = r + n) and out-of-range fields
     g = net("BTC").generator
     n, p = g.order(), g.p()
@@ -560,6 +699,40 @@ def prop_cases(rng, tier):
     for (first, r, s, z) in cases:
         yield PropCase("recover_sound", {"net": "BTC", "first": first, "r": str(r), "s": str(s), "z": str(z)},
                        (lambda first=first, r=r, s=s, z=z: chk_recover_sound("BTC", first, r, s, z)))
+    for x, _pts in _secp_high_x():
+        for parity in (0, 1):
+            for comp in (False, True):
+                s_ = rng.randrange(1, n)
+                z_ = rng.getrandbits(256)
+                yield PropCase("recover_formula", {"net": "BTC", "x": str(x), "parity": parity, "s": str(s_), "z": str(z_), "comp": comp},
+                               (lambda x=x, parity=parity, s_=s_, z_=z_, comp=comp: chk_recover_formula("BTC", x, parity, s_, z_, comp)))
+    for _ in range(30 if quick else 600):
+        R = rng.randrange(1, n) * g
+        s_ = rng.randrange(1, n)
+        z_ = rng.getrandbits(256)
+        comp = rng.random() < 0.5
+        if R[0] % n == 0:
+            continue
+        yield PropCase("recover_formula", {"net": "BTC", "x": str(R[0]), "parity": R[1] & 1, "s": str(s_), "z": str(z_), "comp": comp},
+                       (lambda R=R, s_=s_, z_=z_, comp=comp: chk_recover_formula("BTC", R[0], R[1] & 1, s_, z_, comp)))
+    # 3b. the property on toy generators (implementation only): every recovery id, exhaustively on the smallest curves
+    for ci, cv in enumerate(TOYS):
+        nn = cv[5]
+        if nn < 20:
+            dz = [(d, z) for d in range(1, nn) for z in range(1, nn + 1)]
+        else:
+            dz = [(rng.randrange(1, nn), rng.randrange(1, 1 << 64)) for _ in range(25 if quick else 400)]
+        for d, z in dz:
+            comp = bool((d ^ z) & 1)
+            yield PropCase("toy", {"curve": ci, "d": d, "z": z, "comp": comp}, (lambda ci=ci, d=d, z=z, comp=comp: chk_toy(ci, d, z, comp)))
+    for i in range(len(WILD)):
+        yield PropCase("wild", {"i": i}, (lambda i=i: chk_wild(i)))
+    for sym in MAIN + ["XTN", "MONA"]:
+        for m in msgs[:14]:
+            yield PropCase("digest_spec", {"net": sym, "msg": m[:300], "msglen": len(m), "fill": m[:1]},
+                           (lambda sym=sym, m=m: chk_digest_spec(sym, m)))
+    for first in list(range(20, 44)) + [0, 255]:
+        yield PropCase("first_byte", {"net": "BTC", "d": "31337", "first": first}, (lambda first=first: chk_first_byte("BTC", 31337, first)))
     # 4. address kinds
     for sym in ("BTC", "LTC"):
         yield PropCase("address_kind", {"net": sym, "d": "12345"}, (lambda sym=sym: chk_address_kind(sym, 12345)))
@@ -581,6 +754,17 @@ def replay_input(check, inp):
         return chk_recover_sound(inp["net"], inp["first"], int(inp["r"]), int(inp["s"]), int(inp["z"]))
     if check == "address_kind":
         return chk_address_kind(inp["net"], int(inp["d"]))
+    if check == "recover_formula":
+        return chk_recover_formula(inp["net"], int(inp["x"]), inp["parity"], int(inp["s"]), int(inp["z"]), inp["comp"])
+    if check == "wild":
+        return chk_wild(inp["i"])
+    if check == "digest_spec":
+        m = inp["msg"] if len(inp["msg"]) == inp["msglen"] else inp["fill"] * inp["msglen"]
+        return chk_digest_spec(inp["net"], m)
+    if check == "first_byte":
+        return chk_first_byte(inp["net"], int(inp["d"]), inp["first"])
+    if check == "toy":
+        return chk_toy(inp["curve"], int(inp["d"]), int(inp["z"]), inp["comp"])
     r = ARM.replay_input(check, inp, net)
     if r is not NotImplemented:
         return r
